@@ -28,7 +28,8 @@ ASSUMPTIONS = [
 
 DATA = ['a', 'b', 'c', 't']
 LITS = [I(3), I(0), R(2.5), L(I(1), I(2), I(3)), L(I(4), I(0), I(-2), I(9)), L(R(0.5), R(1.5)), L(L(I(1), I(2)), L(I(3), I(4))),
-        L(I(1), L(I(2), I(3))), S('abc'), S(''), L(), L(S('ab'), S('cd')), D([(I(1), I(2))])]
+        L(I(1), L(I(2), I(3))), S('abc'), S(''), L(), L(S('ab'), S('cd')), D([(I(1), I(2))]),
+        L(I(-1), I(2)), L(I(2), I(-1))]          # also usable as shapes with a free dimension
 
 
 def kind(c):
@@ -278,7 +279,7 @@ def make_machine(stats, report):
             self.do(f'{v}::{render(c)}', {v})
 
         @rule(data=st.data(), v=st.sampled_from(DATA), tpl=st.sampled_from(['{w}+1', '{w}*2', '|{w}', '2#{w}', '1_{w}', '{w}@0', '[2 2]:^{w}',
-                                                                            '{w},{w}', '-{w}', '#{w}', '(-1)#{w}', ',{w}', '{w}@[1 0]']))
+                                                                            '{w},{w}', '-{w}', '#{w}', '(-1)#{w}', ',{w}', '{w}@[1 0]', '[-1 2]:^{w}', '[2 -1]:^{w}']))
         def assign_expr(self, data, v, tpl):
             numeric = tpl in ('{w}+1', '{w}*2', '-{w}')
             cands = self.vars_of_kind('num', 'nlist', 'matrix', 'nnested') if numeric else \
@@ -288,6 +289,19 @@ def make_machine(stats, report):
             wv = data.draw(st.sampled_from(cands))
             self.w.derived[v] = wv
             self.do(f'{v}::' + tpl.format(w=wv), {v})
+
+        @rule(data=st.data(), v=st.sampled_from(DATA))
+        def reshape_by_shape_variable(self, data, v):
+            # the shape is held in a variable and has a free (-1) dimension: Reshape must not write the resolved size into it
+            snap = self.w.snap(self.w.a)
+            shapes = sorted(n for n, c in snap.items() if n in DATA and c in (L(I(-1), I(2)), L(I(2), I(-1))))
+            srcs = [n for n in self.vars_of_kind('nlist', 'matrix') if n not in shapes]
+            if not shapes or not srcs:
+                return
+            sh = data.draw(st.sampled_from(shapes))
+            wv = data.draw(st.sampled_from(srcs))
+            self.w.derived[v] = wv
+            self.do(f'{v}::{sh}:^{wv}', {v})
 
         @rule(data=st.data(), v=st.sampled_from(DATA), self_assign=st.booleans(), val=st.sampled_from(['99', '0', '2.5', '[7 8]']),
               idx=st.sampled_from(['0', '1', '[0 1]']))
